@@ -93,6 +93,10 @@ Assemble == /\ pc = "running" /\ running = 0 /\ ready = <<>> /\ \A i \in DOMAIN 
 
 Next == Kick \/ Pick \/ Assemble \/ \E i \in DOMAIN elems : Enter(i) \/ Exec(i) \/ Eh(i) \/ Eh2(i) \/ Susp(i) \/ Finish(i) \/ Release(i)
 Spec == Init /\ [][Next]_vars
+\* the environment eventually completes every future it handed out, the loop eventually runs every ready task
+FairSpec == Spec /\ WF_vars(Next)
+\* every batch is eventually answered (no schedule strands an element)
+Termination == <>(pc = "done")
 
 (****************************** properties *********************************)
 \* C10, first sentence: under EVERY interleaving ...
